@@ -10,6 +10,7 @@ Families (all enumerated completely):
           positions, effect forms x effect positions, fluent kinds x duration / cost positions,
           parameter / fluent types, metrics, undefined initial values; plain, hierarchical,
           contingent, scheduling and multi-agent problems)
+  bounds  minimal problems whose only numeric type is the (un)bounded int / real type under test
   corpus  unified_planning.test.examples (+ multi_agent examples) and up_test_cases builtin
 """
 from __future__ import annotations
@@ -32,7 +33,8 @@ RULE = (
     "all U-PROB problems (15 slots incl. trajectory and metric) and all U-TEMP-lite problems "
     "(13 slots) with <= d deviating slots (d per tier); all one-deviation position sweeps "
     "(family x position x item x context, see c10_sweep.FAMILIES); every problem of the example "
-    "and up_test_cases corpora. One evaluation = one problem whose kind is compared with the "
+    "and up_test_cases corpora; 72 minimal problems with one numeric type (int / real x no / lower / upper / both bounds x fluent / "
+    "parameter). One evaluation = one problem whose kind is compared with the "
     "independent extractor; non-trivial = the extractor demands at least one feature beyond "
     "typing and problem class"
 )
@@ -67,6 +69,7 @@ def shards(tier, seed):
     k = 8
     for i in range(k):
         out.append({"level": 0, "family": "sweep", "cases": cs[i::k]})
+    out.append({"level": 0, "family": "bounds"})
     out.append({"level": 0, "family": "corpus", "which": "examples"})
     out.append({"level": 0, "family": "corpus", "which": "builtin"})
     for sh in su.chunk_cases(uprob.case_ids(tier, uprob.SLOT_NAMES), seed, {0: 1, 1: 4, 2: 48, 3: 320}):
@@ -118,6 +121,8 @@ def run_shard(shard, tier, seed):
     if fam == "sweep":
         for c in shard["cases"]:
             run_sweep(acc, tuple(c))
+    elif fam == "bounds":
+        run_bounds(acc)
     elif fam == "corpus":
         run_corpus(acc, shard["which"])
     else:
@@ -198,6 +203,50 @@ def staged(acc, ps, cid, level):
     judge(acc, pb, "uprob-staged", _label(cid), {"family": "uprob-staged", "cid": tj(cid)}, level)
 
 
+# family "bounds": minimal problems whose ONLY numeric type is the one under test (the sweep's base
+# problem already has bounded fluents, which would hide a missing BOUNDED_TYPES)
+BOUNDS_CASES = [(cls, kind, lo, hi, where) for cls in ("plain", "htn", "contingent") for kind in ("int", "real")
+                for lo, hi in ((None, None), (0, None), (None, 5), (0, 5)) for where in ("fluent", "action-parameter", "fluent+goal")]
+
+
+def run_bounds(acc, only=None):
+    import unified_planning as up
+    from collections import OrderedDict
+
+    for case in BOUNDS_CASES:
+        if only is not None and list(case) != list(only):
+            continue
+        cls, kind, lo, hi, where = case
+        env = fresh_env()
+        tm, em = env.type_manager, env.expression_manager
+        if cls == "plain":
+            pb = up.model.Problem("b", env)
+        elif cls == "htn":
+            from unified_planning.model.htn import HierarchicalProblem
+
+            pb = HierarchicalProblem("b", env)
+        else:
+            from unified_planning.model.contingent import ContingentProblem
+
+            pb = ContingentProblem("b", env)
+        t = tm.IntType(lo, hi) if kind == "int" else tm.RealType(lo, hi)
+        flag = up.model.Fluent("flag", tm.BoolType(), None, env)
+        pb.add_fluent(flag, default_initial_value=False)
+        if where == "action-parameter":
+            a = up.model.InstantaneousAction("a", OrderedDict(k=t), env)
+        else:
+            z = up.model.Fluent("z", t, None, env)
+            pb.add_fluent(z, default_initial_value=1)
+            a = up.model.InstantaneousAction("a", _env=env)
+            if where == "fluent+goal":
+                pb.add_goal(em.Equals(em.FluentExp(z), em.Int(1)))
+        a.add_effect(flag, True)
+        pb.add_action(a)
+        pb.add_goal(em.FluentExp(flag))
+        label = "%s/%s[%s,%s]/%s" % (cls, kind, lo, hi, where)
+        judge(acc, pb, "bounds", label, {"family": "bounds", "case": list(case)}, 1)
+
+
 _CORPUS = {}
 
 
@@ -242,6 +291,8 @@ def replay(case):
     fam = case["family"]
     if fam == "sweep":
         run_sweep(acc, tuple(case["case"]))
+    elif fam == "bounds":
+        run_bounds(acc, only=case["case"])
     elif fam == "corpus":
         run_corpus(acc, case["which"], only=case["name"])
     else:
@@ -255,6 +306,9 @@ def finalize(acc, tier=None):
     best = {}
     for fp, e in acc.viol.items():
         sub = fp.split("|")[0] if not fp.startswith("missing:") else fp[: fp.rindex("|")]
+        # multi-agent problems compute their kind in other code (and have a recorded finding):
+        # they never stand in for a single-agent input with the same missing feature
+        sub = (sub, "@ma" in fp[fp.rindex("|"):] or "ma:" in fp[fp.rindex("|"):])
         c0 = e["cases"][0]["case"]
         key = (c0.get("_level", 9), len(json.dumps(c0, default=str)), fp)
         if sub not in best or key < best[sub][0]:
